@@ -4,6 +4,7 @@ import (
 	"context"
 	"encoding/json"
 	"fmt"
+	"math"
 	"strings"
 	"sync"
 	"time"
@@ -77,6 +78,26 @@ func (h *StreamSrv) Sub(ctx context.Context, id int, n int) (<-chan int, error) 
 
 func (h *StreamSrv) Echo(ctx context.Context, tok int) (int, error) { return tok, nil }
 
+// SubNaN streams floats, one of which (NaN) cannot be encoded as JSON: the library skips it;
+// other subscriptions on the connection must not notice.
+func (h *StreamSrv) SubNaN(ctx context.Context, id int) (<-chan float64, error) {
+	out := make(chan float64)
+	h.s.Go(fmt.Sprintf("prodnan-%d", id), func() {
+		defer close(out)
+		if h.syncK > 0 {
+			h.s.Env("prod-go")
+		}
+		for _, v := range []float64{1.5, math.NaN(), 2.5} {
+			select {
+			case out <- v:
+			case <-ctx.Done():
+				return
+			}
+		}
+	})
+	return out, nil
+}
+
 func (h *StreamSrv) Sent(id int) []int {
 	h.mu.Lock()
 	defer h.mu.Unlock()
@@ -90,6 +111,7 @@ func (h *StreamSrv) Done(id int) bool {
 }
 
 type StreamCli struct {
+	SubNaN func(ctx context.Context, id int) (<-chan float64, error)
 	Sub  func(ctx context.Context, id int, n int) (<-chan int, error)
 	Echo func(ctx context.Context, tok int) (int, error)
 }
@@ -145,6 +167,7 @@ func init() {
 				add("k3-l1,3,3-sync", 1, map[string]int{"k": 3, "l0": 1, "l1": 3, "l2": 3, "mode": 0, "sync": 1})
 				add("k2-l3,3-sync", 1, map[string]int{"k": 2, "l0": 3, "l1": 3, "mode": 0, "sync": 1})
 				add("k2-l1,3-attentive-desc", 1, map[string]int{"k": 2, "l0": 1, "l1": 3, "mode": 0, "desc": 1})
+				add("k2-l3,3-nan", 1, map[string]int{"k": 2, "l0": 3, "l1": 3, "mode": 0, "nan": 1})
 				return ps
 			}
 			add("k2-l1,3-attentive", 2, map[string]int{"k": 2, "l0": 1, "l1": 3, "mode": 0})
@@ -166,6 +189,7 @@ func init() {
 			add("k2-l3,3-sync", 2, map[string]int{"k": 2, "l0": 3, "l1": 3, "mode": 0, "sync": 1})
 			add("k2-l1,3-attentive-desc", 2, map[string]int{"k": 2, "l0": 1, "l1": 3, "mode": 0, "desc": 1})
 			add("k1-l3-attentive-desc", 3, map[string]int{"k": 1, "l0": 3, "mode": 0, "desc": 1})
+			add("k2-l3,3-nan", 2, map[string]int{"k": 2, "l0": 3, "l1": 3, "mode": 0, "nan": 1})
 			return ps
 		},
 		Body: streamBody,
@@ -330,6 +354,20 @@ func streamBody(s *vsched.Sched, p Param) {
 		v, err := sw.cli.Echo(context.Background(), 5)
 		obs.Set("echo", "%d/%v", v, err)
 	})
+	if p.I("nan") == 1 {
+		s.Go("sub-nan", func() {
+			ch, err := sw.cli.SubNaN(sw.ctxs[0], 9)
+			if err != nil || ch == nil {
+				obs.Set("nan", "err:%v", err)
+				return
+			}
+			var got []float64
+			for v := range ch {
+				got = append(got, v)
+			}
+			obs.Set("nan", "%v", got)
+		})
+	}
 }
 
 // checkStreamWire: on every link, for each channel id the response announcing it precedes
